@@ -591,6 +591,36 @@ func runParent(args []string) error {
 			s.inbox = nil
 			evs = append(evs, map[string]any{"op": "probe", "run": 1, "tag": tag, "sentinel": i + 1, "ok": err == nil, "ms": time.Since(t0).Milliseconds()})
 		}
+		// the transfer port serves the well-behaved too: a sentinel downloads a small file through it
+		t0 := time.Now()
+		ok := false
+		if rep, err := s2.request(sim.Patience(10*time.Second), sim.TDownloadFile, sim.Fld(sim.FFileName, []byte("file.txt"))); err == nil && rep.Err == 0 {
+			if ref, _ := rep.Get(sim.FRefNum); len(ref) == 4 {
+				if x, err := dialFrom(net.IPv4(127, 0, 0, 3), tport); err == nil {
+					_, _ = x.Write(preamble(ref, 0))
+					got := 0
+					buf := make([]byte, 4096)
+					deadline := time.Now().Add(sim.Patience(10 * time.Second))
+					for time.Now().Before(deadline) && !ok {
+						_ = x.SetReadDeadline(time.Now().Add(200 * time.Millisecond))
+						n, err := x.Read(buf)
+						got += n
+						if bytes.Contains(buf[:n], []byte("this is a file")) {
+							ok = true // the data fork arrived
+						}
+						if err != nil {
+							if ne, isNet := err.(net.Error); isNet && ne.Timeout() {
+								continue
+							}
+							break
+						}
+					}
+					x.Close()
+				}
+			}
+		}
+		s2.inbox = nil
+		evs = append(evs, map[string]any{"op": "probe", "run": 1, "tag": tag + "/transfer", "sentinel": 3, "ok": ok, "ms": time.Since(t0).Milliseconds()})
 	}
 	childDead := func() bool {
 		select {
